@@ -132,7 +132,7 @@ def make_run(W, shape, known_active=None):
         trace = []
         conj = []
         known_c = []   # per call: the expectation weakened by the recorded finding
-        for ci, (nargs, kwnames, poskw, raising) in enumerate(calls):
+        for ci, (nargs, kwnames, poskw, raising, must_accept) in enumerate(calls):
             args = [W.K[q]() for q in range(nargs)]
             kwargs = {nm: W.K[0]() for nm in kwnames}
             for q, nm in enumerate(poskw):
@@ -187,7 +187,10 @@ def make_run(W, shape, known_active=None):
                     conj.append(z3.And(z3.BoolVal(not LOG), z3.Not(rule.any_app())))
                     continue_known = True
                 else:
-                    conj.append(z3.And(z3.BoolVal(not LOG), z3.Not(rule.any_app())))
+                    if must_accept:
+                        conj.append(z3.And(z3.BoolVal(not LOG), z3.Not(rule.any_app())))
+                    else:   # outside the documented positional/keyword rule: a rejection is legitimate
+                        conj.append(z3.BoolVal(not LOG))
                     known_c.append(conj[-1])
                 trace.append(rec)
                 continue
@@ -230,17 +233,25 @@ def gen_shapes(tier, seed):
         for nargs in range(0, maxpos + 1):
             for r in range(3):
                 for kws in itertools.combinations(kwpool, r):
-                    calls.append([nargs, list(kws), [], 0])
+                    calls.append([nargs, list(kws), [], 0, True])
         minreq = min(sum(1 for p in md["pos"] if not p[2]) for md in methods)
-        # documented restriction: with more than one optional positional, all positionals are strictly positional
-        if uniform and not any(md["posonly"] for md in methods) and maxpos - minreq <= 1 and all(len(md["pos"]) == maxpos for md in methods):
-            # documented: uniformly named positionals may be given as keywords (the last ones)
+        # documented: uniformly named positionals may be given as keywords -- unless more than one of them is optional
+        # (then all positionals are strictly positional).  Calls outside the documented rule are generated too: the
+        # dispatcher may reject them, but if it accepts one the method must still see the arguments as written.
+        allowed = uniform and not any(md["posonly"] for md in methods) and maxpos - minreq <= 1 and all(len(md["pos"]) == maxpos for md in methods)
+        if uniform and maxpos:
             for nargs in range(0, maxpos):
                 names = ["x", "y", "z"][nargs:maxpos]
                 for k in range(1, len(names) + 1):
-                    calls.append([nargs, [], names[:k], 0])
+                    calls.append([nargs, [], names[:k], 0, bool(allowed)])
+                # with a gap: an earlier optional positional omitted, a later one given by keyword (never in the documented
+                # rule; if the dispatcher accepts it, the keyword must still arrive)
+                for k in range(1, len(names)):
+                    calls.append([nargs, [], names[k:], 0, False])
+                    calls.append([nargs, ["k"] if "k" in [n_ for md in methods for n_, _, _ in md["kw"]] else [], names[k:k + 1], 0, False])
         rng.shuffle(calls)
-        calls = calls[:10]
+        gaps = [c for c in calls if c[2] and not c[4]][:3]
+        calls = gaps + [c for c in calls if c not in gaps][: 12 - len(gaps)]
         for c in calls[::3]:
             c[3] = 1
         out.append(dict(n=n, methods=methods, calls=calls, uniform=uniform, selfarg=selfarg))
